@@ -110,6 +110,7 @@ def run_explored(ctx, tier, rng):
             j = gen.job(len(jobs) + 1, prog, prov, mode=rng.choice(["sync", "async"]))
             j["dbudget"] = 4 if thorough else 3
             j["fbudget"] = 1 if thorough else 0
+            j["badopt"] = len(jobs) % 3 == 0          # in a third of the programs gates may also return an invalid target
             j["_tag"] = ("cyc/" if cyc else "dag/") + tag
             jobs.append(j)
     behs, stats = steps.explore([{k: v for k, v in j.items() if not k.startswith("_")} for j in jobs])
